@@ -452,6 +452,26 @@ def s_cfgkey2name_spec(ex, keyid):
     ex.bm.raise_(KeyError, "size code")
 
 
+# storage width by size code (bits 30..28 of a key ID), restated from the u-blox interface description - deliberately
+# not read from the library's UBX_CONFIG_STORSIZE table: 1 -> one bit (one byte), 2 -> 1, 3 -> 2, 4 -> 4, 5 -> 8 bytes
+CFG_WIDTH_BY_SIZECODE = {1: 1, 2: 1, 3: 2, 4: 4, 5: 8}
+
+
+def n_cfg_item_width(keyid: int) -> int:
+    return CFG_WIDTH_BY_SIZECODE.get((keyid >> 28) & 7, -1)
+
+
+def s_cfg_item_width(ex, keyid):
+    if isinstance(keyid, int):
+        return n_cfg_item_width(keyid)
+    k = zint(keyid)
+    code = (k / (1 << 28)) % 8
+    e = z3.IntVal(-1)
+    for c, w in CFG_WIDTH_BY_SIZECODE.items():
+        e = z3.If(code == c, z3.IntVal(w), e)
+    return mk_int(e)
+
+
 def n_cfg_sizecode_invalid(keyid: int) -> bool:
     db, stor = _cfgdb()
     return keyid not in {k for k, _ in db.values()} and (keyid >= (1 << 31) or ((keyid >> 28) & 7) not in stor)
@@ -556,6 +576,7 @@ def install(reg):
     reg.spec("fits_float32", s_fits_float32, n_fits_float32)
     reg.spec("snapshot", s_snapshot, None)
     reg.spec("cfg_sizecode_invalid", s_cfg_sizecode_invalid, n_cfg_sizecode_invalid)
+    reg.spec("cfg_item_width", s_cfg_item_width, n_cfg_item_width)
     # control-flow ghost: has the path entered the function's first loop?  (native twin: False - the replayer only
     # supplies item lists on which the loop and the constructor cannot refuse, so a native refusal is the limit check)
     # control-flow ghost: was the contract of <qualname suffix> applied on this path?  exc_name: class name of the
